@@ -83,7 +83,7 @@ PARAMS["C08"] = {"rule": "generate, Default, Clone, map x4 receiver forms, fold 
 
 PROPS["C09"] = Prop(
     "C09", ["GA.Props.C09"],
-    [Engine("seq", scen.seq, sig=lambda l: l.split()[0] + "/" + l.split()[-1])],
+    [Engine("seq", scen.seq, sig=lambda l: l.split()[0] + "/" + l.split()[-1], miri=80)],
     trusted=[KERNEL, TRANSLATOR, HARNESS,
              "modelled, not verified: ptr::read/ptr::write/ptr::copy/slice::swap semantics; the result types' lengths (Add1/Sub1/Diff/Sum) are typenum's; layout facts come from C01"],
     assumptions=["element values are abstracted to ids; blocks are addressed in whole elements (C01 gives stride = size_of::<T>())",
@@ -96,7 +96,7 @@ MEM_TRUST = "modelled, not verified: slice::from_raw_parts(_mut), reference tran
 
 PROPS["C02"] = Prop(
     "C02", ["GA.Props.C02"],
-    [Engine("views", scen.views, sig=lambda l: l.split()[0])],
+    [Engine("views", scen.views, sig=lambda l: l.split()[0], miri=80)],
     trusted=[KERNEL, TRANSLATOR, HARNESS, MEM_TRUST],
     assumptions=["a view is described by (address offset, element count); aliasing rules beyond address equality (Stacked/Tree Borrows) are not modelled",
                  "correspondence covers the length lattice incl. every tuple length 1..=12; theorems cover every N and every source length L"],
@@ -106,7 +106,7 @@ PARAMS["C02"] = {"rule": "ten borrowed views x length lattice x 5 element kinds 
 
 PROPS["C10"] = Prop(
     "C10", ["GA.Props.C10"],
-    [Engine("chunks", scen.chunks, sig=lambda l: l.split()[0])],
+    [Engine("chunks", scen.chunks, sig=lambda l: l.split()[0], miri=80)],
     trusted=[KERNEL, TRANSLATOR, HARNESS, MEM_TRUST],
     assumptions=["slice_from_chunks on zero-sized elements with k*N >= 2^64 (the multiplication can wrap; no memory is involved) is outside the theorem's hypothesis",
                  "const-evaluator agreement is covered by C18"],
@@ -116,7 +116,7 @@ PARAMS["C10"] = {"rule": "chunks_from_slice(_mut) for every L in 0..=4N+3, N in 
 
 PROPS["C11"] = Prop(
     "C11", ["GA.Props.C11"],
-    [Engine("regroup", scen.regroup, sig=lambda l: l.split()[0])],
+    [Engine("regroup", scen.regroup, sig=lambda l: l.split()[0], miri=60)],
     trusted=[KERNEL, TRANSLATOR, HARNESS, MEM_TRUST, "typenum's Prod/Quot"],
     assumptions=["unflatten is claimed over evenly divisible lengths (its documented domain); other lengths hit the size check (owned) and are shown to stay within the source (by reference)"],
     nontrivial=lambda s, impl: " n=0 " not in s and " m=0 " not in s,
